@@ -18,6 +18,8 @@ import (
 	"github.com/plgd-dev/go-coap/v3/message/codes"
 	"github.com/plgd-dev/go-coap/v3/message/pool"
 	coapErrors "github.com/plgd-dev/go-coap/v3/pkg/errors"
+	"github.com/plgd-dev/go-coap/v3/net/responsewriter"
+	tcpclient "github.com/plgd-dev/go-coap/v3/tcp/client"
 	udpclient "github.com/plgd-dev/go-coap/v3/udp/client"
 
 	"verifharness/internal/conns"
@@ -69,6 +71,11 @@ type Trace struct {
 	EndTokens int     `json:"endTokens"`
 	EndMids   int     `json:"endMids"`
 	Hung      []int   `json:"hung"`
+	// what else the connection did with the answers: stray[k] = [caller, serial, n] - answer instance (caller, serial) reached
+	// the connection's own handler (the place for messages nobody waits for) n times; sent[k] = [caller, serial, n] - the peer
+	// put it on the wire n times (duplicates included)
+	Stray [][]int `json:"stray"`
+	Sent  [][]int `json:"sent"`
 }
 
 type conn interface {
@@ -106,13 +113,22 @@ func runOne(st Stim, transport string) Trace {
 		tr.Answers[i] = []int{}
 	}
 	var cn conn
+	var mu sync.Mutex
+	stray, sent := map[[2]int]int{}, map[[2]int]int{}
+	toHandler := func(body []byte) {
+		var c, sr int
+		if k, _ := fmt.Sscanf(string(body), "ans-%d-%d", &c, &sr); k == 2 {
+			mu.Lock()
+			stray[[2]int{c, sr}]++
+			mu.Unlock()
+		}
+	}
 	if transport == "udp" {
-		cn = newUDP(n)
+		cn = newUDP(n, toHandler)
 	} else {
-		cn = newTCP(n)
+		cn = newTCP(n, toHandler)
 	}
 	defer cn.close()
-	var mu sync.Mutex
 	cs := make([]*caller, n+1)
 	for c := 1; c <= n; c++ {
 		cs[c] = &caller{state: "idle", res: Res{Pc: "idle", Tok: []int{}, Pay: []int{}}}
@@ -191,6 +207,9 @@ func runOne(st Stim, transport string) Trace {
 			cn.settle()
 			if cn.answer(a.C, a.Y, serial) {
 				applied = true
+				mu.Lock()
+				sent[[2]int{a.C, serial}]++
+				mu.Unlock()
 				if a.Y != "dup" {
 					tr.Answers[a.C-1] = append(tr.Answers[a.C-1], serial)
 				}
@@ -233,6 +252,15 @@ func runOne(st Stim, transport string) Trace {
 	}
 	mu.Unlock()
 	tr.EndTokens, tr.EndMids = cn.tables()
+	tr.Stray, tr.Sent = [][]int{}, [][]int{}
+	mu.Lock()
+	for k, v := range stray {
+		tr.Stray = append(tr.Stray, []int{k[0], k[1], v})
+	}
+	for k, v := range sent {
+		tr.Sent = append(tr.Sent, []int{k[0], k[1], v})
+	}
+	mu.Unlock()
 	return tr
 }
 
@@ -246,9 +274,15 @@ type udpConn struct {
 	mid  int32
 }
 
-func newUDP(n int) *udpConn {
+func newUDP(n int, toHandler func([]byte)) *udpConn {
 	c := &udpConn{reqs: map[int]memnet.Dgram{}, last: map[int][][]byte{}, mid: 30000}
-	c.u = conns.NewUDP(func(cfg *udpclient.Config) { cfg.TransmissionNStart = uint32(n + 1) })
+	c.u = conns.NewUDP(func(cfg *udpclient.Config) {
+		cfg.TransmissionNStart = uint32(n + 1)
+		cfg.Handler = func(_ *responsewriter.ResponseWriter[*udpclient.Conn], r *pool.Message) {
+			b, _ := r.ReadBody()
+			toHandler(b)
+		}
+	})
 	return c
 }
 
@@ -329,9 +363,14 @@ type tcpConn struct {
 	last map[int][]byte
 }
 
-func newTCP(int) *tcpConn {
+func newTCP(_ int, toHandler func([]byte)) *tcpConn {
 	c := &tcpConn{reqs: map[int]conns.TFrame{}, last: map[int][]byte{}}
-	c.t = conns.NewTCP(nil)
+	c.t = conns.NewTCP(func(cfg *tcpclient.Config) {
+		cfg.Handler = func(_ *responsewriter.ResponseWriter[*tcpclient.Conn], r *pool.Message) {
+			b, _ := r.ReadBody()
+			toHandler(b)
+		}
+	})
 	c.t.Settle()
 	return c
 }
